@@ -42,6 +42,11 @@ func init() {
 			"Signer.Sign: for signatures of 1..512 bytes every single-bit flip of the delivered signature, every bit of signature_crc32c, the verified flags, lost request checksums, structural checksum/signature corruptions, random double flips, service errors, " +
 			"wrong digest lengths and 15 non-PSS/SHA-256 option values; a returned signature => delivered checksum equals CRC32C of the delivered signature, verified_digest_crc32c (and verified_data_crc32c when data_crc32c was sent) true, " +
 			"options are *rsa.PSSOptions with SHA-256, returned bytes are the delivered ones. Refusals are counted, never judged. " +
+			"Appended audit dimensions (same oracles, every call judged on its own): (i) kept manager: sessions of 6-10 lifecycle calls through ONE Manager and ONE context whose output.Options, BootstrapContext and SigningKeyContext the caller edits in place between calls (keep_going, key ids, operators), over ONE model world that persists, with another actor changing the world between calls (disables/destroys the version a call returned, adds pending versions, adds a page of destroyed versions), fault plans on a third of the calls (so failed calls are retried through the same manager) and now and then a call through a fresh Manager; " +
+			"(ii) kept signer: 64 calls through ONE Signer, the caller keeping one *rsa.PSSOptions value edited in place, one digest buffer refilled in place, overwriting the bytes the previous call returned, honest/corrupted/failed responses and PSS-SHA-256/other options in PRNG order; " +
+			"(iii) Sign calls in flight together: groups of 3-6 calls through one Signer / one Manager / all their own, held inside AsymmetricSign by the model until every call of the group has sent its request or returned, then each answered with its own planned response (calls told apart by a context value); " +
+			"(iv) lifecycle calls in flight together: groups of 2-3 calls (own Manager, own world, identical resource names), a PRNG scheduler gives the turn at every RPC so that exactly one runs at a time and the interleaving is a function of the seed; " +
+			"(v) signatures whose CRC32C is forced to 0x00000001, 0x7fffffff, 0x80000000, 0x80000001, 0xfffffffe, 0xffffffff with the complete probe family. " +
 			"non-trivial = a scenario whose fault-free trace reached the entry point's RPCs (faulted runs: the fault position was reached); distinct = (entry, keys, first key's version count, state mix, pagination, fault method:class or none, outcome) cells",
 		Assumptions: []string{
 			"the model only produces listings AIP-158 allows: a page may be shorter than requested (also empty) while a token is present; only an empty next_page_token ends a listing; total_size is the size of the whole collection; page tokens are opaque and validated",
@@ -50,6 +55,7 @@ func init() {
 			"a faulted wipeout is only required to be honest (nil => complete), not complete",
 			"a fault sequence may fail every call from some point on (the quantifier's 'service errors at each call'); termination is then still demanded within the RPC budget, which leaves room for about a hundred retries but not for retrying as long as the service fails; what a call returns under an outage or an ended context is not judged beyond the nil-result rules",
 			"the caller's context is ended by the model at an RPC (a context.Context implementation without a timer), never by a clock",
+			"the property's per-call guarantees hold for every call whatever the same Manager/Signer or the same process did before or does at the same time (calls on different worlds only; two lifecycle calls never share a world, so no rule has to arbitrate between them); another actor changes a world only between two calls, never during one",
 			"creation of a fresh version when a key has neither an enabled nor a pending version is the repository's choice and is not judged; typed-nil signer options and an empty signature without checksum are outside the quantifier and only noted",
 		},
 		ShardsQuick: 8, ShardsThor: 16, TimeoutS: 600, TimeoutThor: 3000, Run: run,
@@ -137,6 +143,23 @@ type scen struct {
 	Target      string      `json:"target,omitempty"` // key id (bootstrap, rotation) or version name (destroy)
 	CancelAtGet int         `json:"cancel_context_at_get,omitempty"`
 	Class       string      `json:"class"` // cell prefix
+	// key ids when they are not the default ones (kept-manager sessions edit them between calls)
+	RootID string `json:"root_key_id,omitempty"`
+	SignID string `json:"signing_key_id,omitempty"`
+}
+
+func (sc *scen) rootID() string {
+	if sc.RootID != "" {
+		return sc.RootID
+	}
+	return rootKeyID
+}
+
+func (sc *scen) signID() string {
+	if sc.SignID != "" {
+		return sc.SignID
+	}
+	return signKeyID
 }
 
 func rle(st []vstate) string {
@@ -293,17 +316,30 @@ type outcome struct {
 func (sc *scen) targetKeyName() string {
 	switch sc.Entry {
 	case eBootRoot:
-		return ringName + "/cryptoKeys/" + rootKeyID
+		return ringName + "/cryptoKeys/" + sc.rootID()
 	case eBootSign, eRotate:
-		return ringName + "/cryptoKeys/" + signKeyID
+		return ringName + "/cryptoKeys/" + sc.signID()
 	}
 	return ""
 }
 
 // call runs the entry point of the scenario on a freshly built world.
 func (sc *scen) call(fp faultPlan, guard func(f func()) bool) outcome {
+	return sc.callSetup(fp, nil, guard)
+}
+
+// callWith is call with a hook that configures the freshly built world, without a guard of its
+// own (the caller recovers panics).
+func (sc *scen) callWith(fp faultPlan, setup func(m *model)) outcome {
+	return sc.callSetup(fp, setup, func(f func()) bool { f(); return false })
+}
+
+func (sc *scen) callSetup(fp faultPlan, setup func(m *model), guard func(f func()) bool) outcome {
 	m := sc.build()
 	m.plan = fp
+	if setup != nil {
+		setup(m)
+	}
 	o := outcome{m: m, pre: map[string]bool{}, prePend: map[string]bool{}}
 	if k := m.findKey(sc.targetKeyName()); k != nil {
 		for _, v := range k.vers {
@@ -331,31 +367,36 @@ func (sc *scen) call(fp faultPlan, guard func(f func()) bool) outcome {
 		m.cancel, m.cancelAtGet = cancel, sc.CancelAtGet
 	}
 	mgr := &gcpkms.Manager{Project: projectID, Location: locationID, KeyRingID: ringID, KeyClient: m, IAMClient: &iamModel{m: m}}
-	o.panicked = guard(func() {
-		defer func() {
-			if m.parked.Load() { // the model aborted a call that would not end; not a panic of the repository
-				if rec := recover(); rec != nil {
-					if _, ok := rec.(hardStop); !ok {
-						panic(rec)
-					}
-					o.name, o.err = "", errAborted
-				}
-			}
-		}()
-		switch sc.Entry {
-		case eWipeout:
-			o.err = mgr.Wipeout(ctx)
-		case eBootRoot:
-			o.name, o.err = mgr.CreateNewRootKey(ctx)
-		case eBootSign:
-			o.name, o.err = mgr.CreateFirstSigningKey(ctx)
-		case eRotate:
-			o.name, o.err = mgr.CreateNewSigningKeyVersion(ctx)
-		case eDestroy:
-			o.err = mgr.DestroyKeyVersion(ctx, sc.Target)
-		}
-	})
+	o.panicked = guard(func() { o.name, o.err = invoke(mgr, ctx, sc.Entry, sc.Target, m) })
 	return o
+}
+
+// invoke calls one entry point of mgr. A call that the model had to abort at the hard RPC limit
+// (hardStop panic out of the model) is turned into errAborted; any other panic goes on.
+func invoke(mgr *gcpkms.Manager, ctx context.Context, entry, target string, m *model) (name string, err error) {
+	defer func() {
+		if m.parked.Load() { // the model aborted a call that would not end; not a panic of the repository
+			if rec := recover(); rec != nil {
+				if _, ok := rec.(hardStop); !ok {
+					panic(rec)
+				}
+				name, err = "", errAborted
+			}
+		}
+	}()
+	switch entry {
+	case eWipeout:
+		err = mgr.Wipeout(ctx)
+	case eBootRoot:
+		name, err = mgr.CreateNewRootKey(ctx)
+	case eBootSign:
+		name, err = mgr.CreateFirstSigningKey(ctx)
+	case eRotate:
+		name, err = mgr.CreateNewSigningKeyVersion(ctx)
+	case eDestroy:
+		err = mgr.DestroyKeyVersion(ctx, target)
+	}
+	return name, err
 }
 
 var errAborted = errors.New("verif: the call did not return; aborted by the model at the hard RPC limit")
@@ -762,8 +803,9 @@ func slowBatch(c *core.Ctx, i int, st *stats) {
 // ---- the case list ----
 
 type caseDef struct {
-	kind   string // sign | slow | life
+	kind   string // sign | slow | life | audit dimensions: signseq | signconc | session | lifeconc
 	sigLen int
+	force  *uint32 // sign: the signature's CRC32C is forced to this value
 	mk     func(r *rand.Rand) *scen
 }
 
@@ -932,6 +974,32 @@ func buildCases(thorough bool) []caseDef {
 		return &scen{Entry: eDestroy, RingExists: true, Paging: paging{Kind: "full"}, Keys: []keySpec{mkKey(signKeyID, "enabled", []vstate{stEnabled})},
 			Target: ringName + "/cryptoKeys/" + signKeyID + "/cryptoKeyVersions/77", Class: "destroy(missing)"}
 	}})
+
+	// ---- audit dimensions, appended so that the cases above keep their numbers and PRNG streams ----
+	// signatures whose CRC32C sits at the boundaries of the 32-bit value inside the int64 field
+	forcedLens := []int{8}
+	if thorough {
+		forcedLens = []int{8, 256}
+	}
+	for _, l := range forcedLens {
+		for _, v := range []uint32{0x00000001, 0x7fffffff, 0x80000000, 0x80000001, 0xfffffffe, 0xffffffff} {
+			v := v
+			cs = append(cs, caseDef{kind: "sign", sigLen: l, force: &v})
+		}
+	}
+	add := func(kind string, quick, thor int) {
+		n := quick
+		if thorough {
+			n = thor
+		}
+		for j := 0; j < n; j++ {
+			cs = append(cs, caseDef{kind: kind})
+		}
+	}
+	add("signseq", 6, 24)
+	add("signconc", 6, 24)
+	add("session", 48, 240)
+	add("lifeconc", 12, 48)
 	return cs
 }
 
@@ -939,6 +1007,7 @@ func run(c *core.Ctx) {
 	cases := buildCases(c.Thorough())
 	st := &stats{faultsReached: map[string]int{}, modesReached: map[string]int{}}
 	sst := &signStats{}
+	ast := newAudStats()
 	ranLife, ranSign, ranSlow := false, false, false
 	for i, cd := range cases {
 		if !c.Mine(i) {
@@ -948,9 +1017,29 @@ func run(c *core.Ctx) {
 		switch cd.kind {
 		case "sign":
 			g := fmt.Sprintf("sign#%d signature of %d bytes", i, cd.sigLen)
+			if cd.force != nil {
+				g += fmt.Sprintf(" whose CRC32C is 0x%08x", *cd.force)
+				ast.ran["forced"] = true
+			}
 			c.Begin(i, g, eSign, nil)
-			signCase(c, i, g, r, cd.sigLen, sst)
+			signCase(c, i, g, r, cd.sigLen, cd.force, sst)
 			ranSign = true
+		case "signseq":
+			c.Begin(i, fmt.Sprintf("signseq#%d: %d calls through one kept Signer", i, signSeqLen), eSign, nil)
+			signSeqCase(c, i, r, sst, ast)
+			ast.ran["signseq"] = true
+		case "signconc":
+			c.Begin(i, fmt.Sprintf("signconc#%d: %d groups of 3-6 calls of Sign in flight together", i, signGroupsPerCase), eSign, nil)
+			signConcCase(c, i, r, sst, ast)
+			ast.ran["signconc"] = true
+		case "session":
+			c.Begin(i, fmt.Sprintf("session#%d: lifecycle calls through one kept Manager over one persistent world", i), "Manager.*(kept)", nil)
+			sessionCase(c, i, r, ast)
+			ast.ran["session"] = true
+		case "lifeconc":
+			c.Begin(i, fmt.Sprintf("lockstep#%d: %d groups of 2-3 lifecycle calls in flight together", i, lifeGroupsPerCase), "Manager.*(in flight together)", nil)
+			lifeConcCase(c, i, r, ast)
+			ast.ran["lifeconc"] = true
 		case "slow":
 			c.Begin(i, "slow batch: scenarios that wait for the repository's 5 s poll, run concurrently", "Manager.*(polling)", nil)
 			slowBatch(c, i, st)
@@ -983,4 +1072,25 @@ func run(c *core.Ctx) {
 	for _, mode := range []string{"single", "burst", "outage", "method-outage", "ctx-deadline", "ctx-cancel"} {
 		c.Floor("fault mode reached: "+mode, ranLife && st.modesReached[mode] > 0)
 	}
+	// audit dimensions
+	for _, f := range auditFloors {
+		c.Floor(f.name, ast.ran[f.dim] && ast.get(f.counter) > 0)
+		c.Count("audit/"+f.counter, ast.get(f.counter))
+	}
+	c.Floor("sign: a genuine signature with a forced boundary checksum value was returned", ast.ran["forced"] && sst.forcedGenuine > 0)
+}
+
+var auditFloors = []struct{ name, dim, counter string }{
+	{"kept signer: other options were refused right after a signature was returned through the same signer", "signseq", "signseq: other options refused right after a signature was returned through the same signer"},
+	{"kept signer: a corrupted response was refused right after a signature was returned through the same signer", "signseq", "signseq: a corrupted response was refused right after a signature was returned through the same signer"},
+	{"kept signer: a signature was returned right after a refused call", "signseq", "signseq: a signature was returned right after a refused call through the same signer"},
+	{"kept signer: a signature was returned after the caller overwrote the previous result", "signseq", "signseq: a signature was returned after the previous result was overwritten"},
+	{"sign in flight together: a signature was returned and a corrupted response refused inside the RPC together", "signconc", "signconc: groups in which a signature was returned and a corrupted response refused while both calls were inside the RPC together"},
+	{"sign in flight together: two signatures were returned to calls inside the RPC together", "signconc", "signconc: groups in which two signatures were returned to calls that were inside the RPC together"},
+	{"kept manager: a call succeeded right after a failed call", "session", "kept: a call succeeded right after a failed call through the same manager"},
+	{"kept manager: bootstrap or rotation returned a version after a wipeout in the same session", "session", "kept: bootstrap or rotation returned a version after a wipeout in the same session"},
+	{"kept manager: a call succeeded for other key ids than the previous call's", "session", "kept: a call succeeded for other key ids than the previous call's"},
+	{"kept manager: a call succeeded after another actor changed the world", "session", "kept: a call succeeded after another actor changed the world"},
+	{"lifecycle in flight together: calls whose RPCs interleaved were judged", "lifeconc", "lockstep: calls judged whose RPCs interleaved with another call's"},
+	{"lifecycle in flight together: an interleaved call followed a served page token", "lifeconc", "lockstep: interleaved calls that followed a served page token"},
 }
